@@ -384,7 +384,7 @@ PROPS = {
 
 def sig_of(ev, call, job):
     """signature of a rejected event for known-findings matching"""
-    src = ev if ev.get('e') == 'op' else (call or {})
+    src = ev if ('op' in ev and ev.get('e') != 'crash') else (call or {})
     sig = {'op': src.get('op', '?'), 'cfg': job.cfg, 'family': job.family}
     for k, v in src.get('p', {}).items():
         if isinstance(v, (int, str)):
